@@ -492,7 +492,7 @@ func randomType(r *rand.Rand, depth int) reflect.Type {
 	case 4:
 		n := r.Intn(4)
 		var fs []reflect.StructField
-		tags := []string{"", `json:"x"`, `json:"y,omitempty"`, `json:"-"`, `json:",omitempty"`, `json:"é\"<"`}
+		tags := []string{"", "", `json:"x"`, `json:"y,omitempty"`, `json:"-"`, `json:",omitempty"`, `json:"z,omitempty"`, `json:"w"`, `json:"é\"<"`}
 		for i := 0; i < n; i++ {
 			fs = append(fs, reflect.StructField{Name: fmt.Sprintf("F%d", i), Type: randomType(r, depth-1), Tag: reflect.StructTag(tags[r.Intn(len(tags))])})
 		}
